@@ -153,6 +153,8 @@ namespace wc
     explicit SimPDC(const Dist::Comm& comm, bool multi) : BaseClass(comm, multi) {}
 
     std::size_t local_virtual_size() const { return this->_virt_levels.size(); }
+    // what --parti-extern-name sets: only partitions of the mesh file with one of these names are considered
+    void set_extern_names(const std::deque<String>& names) { this->_extern_parti_names = names; }
 
     void select_partitioners(bool ext, bool two, bool naive, bool genetic, double t_init, double t_mut, int rank_elems)
     {
